@@ -5,6 +5,15 @@ fn main() {
     let args: Vec<String> = std::env::args().skip(1).collect();
     let verif = vharness::findings::verif_dir();
     let id = args.get(1).cloned().unwrap_or_default();
+    if args.get(0).map(|s| s.as_str()) == Some("emit") {
+        // vcheck emit C09 <n> <dir> [seed]: files for tools/decoder_crosscheck.sh
+        let n: usize = args.get(2).and_then(|s| s.parse().ok()).unwrap_or(100);
+        let dir = args.get(3).cloned().unwrap_or_else(|| "/verif/work/xcheck".into());
+        let seed: u64 = args.get(4).and_then(|s| s.parse().ok()).unwrap_or(1);
+        let w = props::c09::emit_files(seed, n, &dir);
+        println!("wrote {} files to {}", w, dir);
+        return;
+    }
     let code = match id.as_str() {
         "C01" => dispatch::<props::c01::C01>(&args, &verif),
         "C02" => dispatch::<props::c02::C02>(&args, &verif),
